@@ -705,4 +705,94 @@ theorem minIndexWithCumulCount_eq (s : PStore) (cap : Int) (rank : Rat) (fuel : 
   · rfl
   · cases PStore.firstExceeding s.pageLines (PStore.sortInts s.buffer) 0 rank <;> rfl
 
+/-! ### `maxIndex?` does not see the order of the buffer -/
+
+theorem foldl_max_spec (xs : List Int) (x : Int) :
+    (xs.foldl max x = x ∨ xs.foldl max x ∈ xs) ∧ x ≤ xs.foldl max x ∧ ∀ y ∈ xs, y ≤ xs.foldl max x := by
+  induction xs generalizing x with
+  | nil => simp
+  | cons a xs ih =>
+    obtain ⟨h1, h2, h3⟩ := ih (max x a)
+    simp only [List.foldl_cons, List.mem_cons, forall_eq_or_imp]
+    refine ⟨?_, by omega, by omega, h3⟩
+    rcases h1 with h1 | h1
+    · rw [h1]; omega
+    · exact Or.inr (Or.inr h1)
+
+theorem listMax?_spec (l : List Int) (m : Int) (h : PStore.listMax? l = some m) :
+    m ∈ l ∧ ∀ y ∈ l, y ≤ m := by
+  cases l with
+  | nil => simp [PStore.listMax?] at h
+  | cons x xs =>
+    simp only [PStore.listMax?, Option.some.injEq] at h
+    obtain ⟨h1, h2, h3⟩ := foldl_max_spec xs x
+    rw [h] at h1 h2 h3
+    refine ⟨?_, ?_⟩
+    · rcases h1 with h1 | h1
+      · rw [h1]; exact List.mem_cons_self ..
+      · exact List.mem_cons_of_mem _ h1
+    · intro y hy
+      rcases List.mem_cons.1 hy with rfl | hy
+      · exact h2
+      · exact h3 y hy
+
+/-- `listMax?` is invariant under permutation -/
+theorem listMax?_perm {l₁ l₂ : List Int} (h : l₁.Perm l₂) :
+    PStore.listMax? l₁ = PStore.listMax? l₂ := by
+  cases h1 : PStore.listMax? l₁ with
+  | none =>
+    cases l₁ with
+    | nil => rw [← h.nil_eq]; rfl
+    | cons x xs => simp [PStore.listMax?] at h1
+  | some m =>
+    cases h2 : PStore.listMax? l₂ with
+    | none =>
+      cases l₂ with
+      | nil => rw [h.eq_nil] at h1; simp [PStore.listMax?] at h1
+      | cons x xs => simp [PStore.listMax?] at h2
+    | some m' =>
+      obtain ⟨a1, a2⟩ := listMax?_spec l₁ m h1
+      obtain ⟨b1, b2⟩ := listMax?_spec l₂ m' h2
+      have := a2 m' (h.mem_iff.2 b1)
+      have := b2 m (h.mem_iff.1 a1)
+      congr 1; omega
+
+theorem maxScan_buffer (s : PStore) (b : List Int) (bmax : Option Int) (offs : List Nat) :
+    PStore.maxIndex?.scan { s with buffer := b } bmax offs = PStore.maxIndex?.scan s bmax offs := by
+  induction offs with
+  | nil => rfl
+  | cons off rest ih =>
+    unfold PStore.maxIndex?.scan
+    rw [ih]
+    rfl
+
+/-- sorting the buffer (what `KeyAtRank` does in place) does not change `maxIndex?` -/
+theorem maxIndex?_sorted (s : PStore) :
+    ({ s with buffer := PStore.sortInts s.buffer } : PStore).maxIndex? = s.maxIndex? := by
+  unfold PStore.maxIndex?
+  rw [maxScan_buffer]
+  show PStore.maxIndex?.scan s (PStore.listMax? (PStore.sortInts s.buffer)) _ = _
+  have hp : (PStore.sortInts s.buffer).Perm s.buffer := List.mergeSort_perm s.buffer _
+  rw [listMax?_perm hp]
+
+/-- fuel for `KeyAtRank`: the cumulative-count loops, and `MaxIndex` for the fallback -/
+def keyFuel (s : PStore) : Nat := max (cumFuel s) (maxFuel s)
+
+/-- **KeyAtRank**: the generated code sorts the buffer and returns the model's `keyAtRank`, for every store -/
+theorem KeyAtRank_eq (s : PStore) (cap : Int) (rank : Rat) (fuel : Nat) (hf : keyFuel s ≤ fuel) :
+    BufferedPaginatedStore.KeyAtRank fuel (toGen s cap) rank
+      = .ok (toGen { s with buffer := PStore.sortInts s.buffer } cap, s.keyAtRank rank) := by
+  have hf1 : cumFuel s ≤ fuel := Nat.le_trans (Nat.le_max_left _ _) hf
+  have hf2 : maxFuel ({ s with buffer := PStore.sortInts s.buffer } : PStore) ≤ fuel :=
+    Nat.le_trans (Nat.le_max_right (cumFuel s) (maxFuel s)) hf
+  unfold BufferedPaginatedStore.KeyAtRank PStore.keyAtRank
+  simp only [decide_eq_true_eq]
+  rw [minIndexWithCumulCount_eq s cap _ fuel hf1]
+  cases PStore.firstExceeding s.pageLines (PStore.sortInts s.buffer) 0 (if rank < 0 then 0 else rank) with
+  | some k => rfl
+  | none =>
+    simp only [Res.bind_ok]
+    rw [if_pos (by decide), MaxIndex_eq _ cap fuel hf2, maxIndex?_sorted]
+    cases s.maxIndex? <;> rfl
+
 end DDS.GenPag
